@@ -1,0 +1,57 @@
+//go:build verif
+// +build verif
+
+package server
+
+import (
+	"net"
+	"time"
+
+	"github.com/XiaoMi/Gaea/mysql"
+)
+
+// VerifAllowList is a namespace holding nothing but a parsed allow-list
+// (verification hook for property C35; compiled only with -tags verif).
+type VerifAllowList struct {
+	ns *Namespace
+}
+
+// VerifParseAllowIps parses allowed_ip exactly as NewNamespace does.
+func VerifParseAllowIps(allowed []string) (*VerifAllowList, error) {
+	ips, err := parseAllowIps(allowed)
+	if err != nil {
+		return nil, err
+	}
+	return &VerifAllowList{ns: &Namespace{name: "verif", allowips: ips}}, nil
+}
+
+// IsClientIPAllowed is Namespace.IsClientIPAllowed.
+func (l *VerifAllowList) IsClientIPAllowed(ip net.IP) bool {
+	return l.ns.IsClientIPAllowed(ip)
+}
+
+// IsAllowConnect runs Session.IsAllowConnect for a session of this namespace
+// whose connection reports the remote address `remote`.
+func (l *VerifAllowList) IsAllowConnect(remote net.Addr) bool {
+	m := NewManager()
+	nm := NewNamespaceManager()
+	nm.namespaces[l.ns.name] = l.ns
+	current, _, _ := m.switchIndex.Get()
+	m.namespaces[current] = nm
+	cc := &Session{manager: m, namespace: l.ns.name}
+	cc.c = NewClientConn(mysql.NewConn(verifAddrConn{remote: remote}), m)
+	return cc.IsAllowConnect()
+}
+
+type verifAddrConn struct {
+	remote net.Addr
+}
+
+func (c verifAddrConn) Read(b []byte) (int, error)         { return 0, net.ErrClosed }
+func (c verifAddrConn) Write(b []byte) (int, error)        { return len(b), nil }
+func (c verifAddrConn) Close() error                       { return nil }
+func (c verifAddrConn) LocalAddr() net.Addr                { return c.remote }
+func (c verifAddrConn) RemoteAddr() net.Addr               { return c.remote }
+func (c verifAddrConn) SetDeadline(t time.Time) error      { return nil }
+func (c verifAddrConn) SetReadDeadline(t time.Time) error  { return nil }
+func (c verifAddrConn) SetWriteDeadline(t time.Time) error { return nil }
